@@ -233,6 +233,7 @@ m("executed-test-file-counts-revert", "pytest_plugin.py", "        state().files
 m("compare-context-finally-revert", "_compare_context.py", "    try:\n        yield\n    finally:\n        # the comparison of the elements can raise an exception\n        _eq_check_only = old_eq_only\n", "    yield\n    _eq_check_only = old_eq_only\n", ["C02"], "revert: a raising comparison during alignment leaves compare-only mode on")
 m("format-command-output-escape-revert", "_format.py", "                + escape(result.stdout.decode(\"utf-8\"))\n                + escape(result.stderr.decode(\"utf-8\"))\n", "                + result.stdout.decode(\"utf-8\")\n                + result.stderr.decode(\"utf-8\")\n", ["C15"], "revert: formatter error output interpreted as rich markup")
 m("empty-format-command-revert", "_config.py", 'tool_config.get("format-command", None) or None', 'tool_config.get("format-command", None)', ["C20"], "revert: format-command=\"\" is executed as a command")
+m("repr-is-expression-revert", "_code_repr.py", "    if not is_expression(result):\n        return real_repr(HasRepr(type(obj), result))\n", "    try:\n        ast.parse(result)\n    except SyntaxError:\n        return real_repr(HasRepr(type(obj), result))\n", ["C01", "C18"], "revert: reprs that parse as code + comment / statements are written verbatim")
 m("run-inline-external-import-only", "testing/_example.py", '                    if used_hasrepr(tree):\n                        required_imports.append("HasRepr")', '                    if used_hasrepr(tree) and used_externals(tree):\n                        required_imports.append("HasRepr")', ["C19"], "HasRepr import only added together with external")
 
 
